@@ -1,4 +1,3 @@
 import Geo.Props.C04
-open Geo
-#print axioms T04_2_elementwise
-#print axioms T04_3_mask_positionwise
+#print axioms Geo.T04_2_elementwise
+#print axioms Geo.T04_3_mask_positionwise
